@@ -4,6 +4,7 @@ mod c04;
 mod c13;
 mod c14;
 mod c16;
+mod c25;
 mod c34;
 
 fn main() {
@@ -22,6 +23,7 @@ fn main() {
         "c14-datahash" => c14::datahash(rest),
         "c14-e2e" => c14::e2e(rest),
         "c16-record" => c16::record(rest),
+        "c25-record" => c25::record(rest),
         "c34-replay" => c34::replay(rest),
         _ => {
             eprintln!("unknown command {cmd}");
